@@ -2,6 +2,7 @@
 from .. import tables as T
 from ..rules import influence as R1
 from ..rules import verdict as R3
+from ..rules import everyiter as R1D
 
 CONFIGS_QUICK = ["default"]
 CONFIGS_THOROUGH = ["default", "nopar", "r1cs"]
@@ -11,7 +12,9 @@ EXPLANATION = (
     "absorbing into the sponge does not count as influence, so a component must reach the decision through the "
     "verification equation itself and not merely by changing the Fiat-Shamir challenges. Sources are every "
     "statement part (values, point, commitment fields), every proof field, every verifier-key field the relation "
-    "mentions, and every challenge squeezed from the transcript. Plus R3: every sub-verdict (Result<bool>/bool of "
+    "mentions, and every challenge squeezed from the transcript. R1L: no value that a verifier loop computes per "
+    "element (a looked-up shift power, say) is overwritten unused and then used after the loop, where only the last "
+    "element's value would take part in the relation. Plus R3: every sub-verdict (Result<bool>/bool of "
     "a nested verifier or of Merkle path verification) is consumed. A missing path proves the component is dead in "
     "the decision, i.e. replacing it leaves acceptance unchanged while the reference relation changes.")
 RULE = ("instances = verifier anchors x {values, point, commitment fields, proof fields, key fields, key accessor "
@@ -62,6 +65,7 @@ def run(rep, ctx, tier):
                                                                "is never used in the decision"), t["span"])
         rep.count("squeeze_sites", n_sq)
         R3.run(rep, ctx, a, "R3")
+        rep.count("bodies_with_loops", R1D.run_last_value(rep, ctx, a, "R1L"))
 
 
 def _ordinal(f, bid, bb):
